@@ -12,6 +12,8 @@ def main():
     ap.add_argument('--tier', default=os.environ.get('VERIF_TIER', 'quick'))
     ap.add_argument('--only', default=None, help='run only jobs whose label contains this')
     a = ap.parse_args()
+    import logging
+    logging.disable(logging.CRITICAL)
     seed = int(os.environ.get('VERIF_SEED', '0') or 0)
     rep = runner.Report(a.pid, a.tier, seed)
     known = runner.load_known()
